@@ -1,0 +1,68 @@
+//go:build verif
+
+package rueidis
+
+// Exported wrappers around the unexported RESP reader / writer and the RedisMessage representation, for the
+// external model-based verification harness (properties C12, C13, C14, C17).
+// Nothing in this file is compiled without the "verif" build tag.
+
+import (
+	"bufio"
+	"io"
+	"strings"
+)
+
+// VerifTree is the raw content of a RedisMessage, field by field, without any interpretation.
+type VerifTree struct {
+	Typ      byte
+	HasStr   bool   // the message carries a byte payload
+	Str      string // copy of the payload
+	Int      int64  // intlen: the integer / boolean value, otherwise the payload or element count
+	HasArr   bool   // the message carries elements
+	Arr      []VerifTree
+	Attrs    *VerifTree // the attribute frame read in front of the value, nil if none
+	CacheHit bool       // the message is marked as served from the client side cache
+}
+
+// VerifTreeOf copies m into a VerifTree.
+func VerifTreeOf(m *RedisMessage) (t VerifTree) {
+	t.Typ = m.typ
+	t.Int = m.intlen
+	if m.bytes != nil {
+		t.HasStr = true
+		t.Str = strings.Clone(m.string())
+	}
+	if m.array != nil {
+		t.HasArr = true
+		vs := m.values()
+		t.Arr = make([]VerifTree, len(vs))
+		for i := range vs {
+			t.Arr[i] = VerifTreeOf(&vs[i])
+		}
+	}
+	if m.attrs == cacheMark {
+		t.CacheHit = true
+	} else if m.attrs != nil {
+		a := VerifTreeOf(m.attrs)
+		t.Attrs = &a
+	}
+	return t
+}
+
+// VerifReadNextMessage is readNextMessage.
+func VerifReadNextMessage(r *bufio.Reader) (RedisMessage, error) { return readNextMessage(r) }
+
+// VerifStreamTo is streamTo.
+func VerifStreamTo(r *bufio.Reader, w io.Writer) (n int64, err error, clean bool) { return streamTo(r, w) }
+
+// VerifWriteCmd is writeCmd (no flush).
+func VerifWriteCmd(w *bufio.Writer, cmd []string) error { return writeCmd(w, cmd) }
+
+// VerifFlushCmd is flushCmd (writeCmd followed by Flush).
+func VerifFlushCmd(w *bufio.Writer, cmd []string) error { return flushCmd(w, cmd) }
+
+// VerifSetExpireAt stores the absolute expiry (unix milliseconds) the client side cache attaches to a reply.
+func VerifSetExpireAt(m *RedisMessage, pxat int64) { m.setExpireAt(pxat) }
+
+// VerifExpireAt returns the stored absolute expiry.
+func VerifExpireAt(m *RedisMessage) int64 { return m.getExpireAt() }
